@@ -152,7 +152,7 @@ def unquote(word):
     return word
 
 
-def parse_keywords(lines, multiline_values=True, key_hints=None):
+def parse_keywords(lines, multiline_values=True, key_hints=None, raw_values=False):
     """
     Utility method to parse name=value pairs (GETINFO etc). Takes a
     string with newline-separated lines and expects at most one = sign
@@ -164,14 +164,21 @@ def parse_keywords(lines, multiline_values=True, key_hints=None):
         produces one key, 'Foo', with value 'bar\nBar' -- set to
         False, there would be two keys: 'Foo' with value 'bar' and
         'Bar' with value DEFAULT_VALUE.
+
+    :param raw_values:
+        The default is False, which removes one pair of quotes around
+        a value and skips lines consisting of ``OK``. Set to True to
+        get every value exactly as sent (used for GETINFO and GETCONF
+        answers, whose values are not quoted strings).
     """
 
+    unquote_value = (lambda word: word) if raw_values else unquote
     rtn = {}
     key = None
     value = ''
     # FIXME could use some refactoring to reduce code duplication!
     for line in lines.split('\n'):
-        if line.strip() == 'OK':
+        if line.strip() == 'OK' and not raw_values:
             continue
 
         sp = line.split('=', 1)
@@ -182,11 +189,11 @@ def parse_keywords(lines, multiline_values=True, key_hints=None):
             if key:
                 if key in rtn:
                     if isinstance(rtn[key], list):
-                        rtn[key].append(unquote(value))
+                        rtn[key].append(unquote_value(value))
                     else:
-                        rtn[key] = [rtn[key], unquote(value)]
+                        rtn[key] = [rtn[key], unquote_value(value)]
                 else:
-                    rtn[key] = unquote(value)
+                    rtn[key] = unquote_value(value)
             (key, value) = line.split('=', 1)
 
         else:
@@ -204,11 +211,11 @@ def parse_keywords(lines, multiline_values=True, key_hints=None):
     if key:
         if key in rtn:
             if isinstance(rtn[key], list):
-                rtn[key].append(unquote(value))
+                rtn[key].append(unquote_value(value))
             else:
-                rtn[key] = [rtn[key], unquote(value)]
+                rtn[key] = [rtn[key], unquote_value(value)]
         else:
-            rtn[key] = unquote(value)
+            rtn[key] = unquote_value(value)
     return rtn
 
 
@@ -415,7 +422,7 @@ class TorControlProtocol(LineOnlyReceiver):
             into a dict, you can use get_info_raw instead.
         """
         d = self.get_info_raw(*args)
-        d.addCallback(parse_keywords, key_hints=args)
+        d.addCallback(parse_keywords, key_hints=args, raw_values=True)
         return d
 
     def get_info_single(self, key):
@@ -431,7 +438,7 @@ class TorControlProtocol(LineOnlyReceiver):
             key (a string).
         """
         d = self.get_info_raw(key)
-        d.addCallback(parse_keywords, key_hints=[key])
+        d.addCallback(parse_keywords, key_hints=[key], raw_values=True)
         d.addCallback(lambda values: values[key])
         return d
 
@@ -459,7 +466,7 @@ class TorControlProtocol(LineOnlyReceiver):
         """
 
         d = self.queue_command('GETCONF %s' % ' '.join(args))
-        d.addCallback(parse_keywords).addErrback(log.err)
+        d.addCallback(parse_keywords, raw_values=True).addErrback(log.err)
         return d
 
     def get_conf_single(self, key):
@@ -481,7 +488,7 @@ class TorControlProtocol(LineOnlyReceiver):
         """
 
         d = self.queue_command('GETCONF {}'.format(key))
-        d.addCallback(parse_keywords).addErrback(log.err)
+        d.addCallback(parse_keywords, raw_values=True).addErrback(log.err)
         # d.addCallback(lambda kw: kw[key])  # extract key we asked for initially
         # ...but, the key can have a different string-name because Tor
         # will return *it's* representation (e.g. can ask for
